@@ -306,24 +306,28 @@ def _unrolled_copies(self, prog, res):
     time AND under every other configuration afterwards (a copy that froze a time-dependent choice diverges later)."""
     if not has_block(prog):
         return
-    world.clear_memo()
-    with world.override(world.CFG_G):
-        c = build(prog).circ.apply_modifiers()
-        top = DeclarativeCircuit()
-        top.add(c)
-        s2 = c.circuit_structure.copy()
-    for cfgname in ('G', 'H', 'D'):
-        with world.override(world.cfg_by_name(cfgname)):
-            world.clear_memo()
-            orig = circ_rows(c)
-            nested = normalise_outer(nested_rows(top))
-            cp = struct_rows(s2)
-            if nested != orig:
-                res.fail('C05-nest-unrolled', 'program %r: nested copy of the unrolled circuit differs under configuration %s: %s' % (prog, cfgname, first_diff(orig, nested)))
-                break
-            if cp != orig:
-                res.fail('C05-structure-copy-unrolled', 'program %r: structure copy of the unrolled circuit differs under configuration %s: %s' % (prog, cfgname, first_diff(orig, cp)))
-                break
+    for flat in (False, True):
+        world.clear_memo()
+        label = 'unrolled and flattened' if flat else 'unrolled'
+        with world.override(world.CFG_G):
+            c = build(prog).circ.apply_modifiers()
+            if flat:
+                c = c.flatten()
+            top = DeclarativeCircuit()
+            top.add(c)
+            s2 = c.circuit_structure.copy()
+        for cfgname in ('G', 'H', 'D'):
+            with world.override(world.cfg_by_name(cfgname)):
+                world.clear_memo()
+                orig = circ_rows(c)
+                nested = normalise_outer(nested_rows(top))
+                cp = struct_rows(s2)
+                if nested != orig:
+                    res.fail('C05-nest-unrolled', 'program %r: nested copy of the %s circuit differs under configuration %s: %s' % (prog, label, cfgname, first_diff(orig, nested)))
+                    break
+                if cp != orig:
+                    res.fail('C05-structure-copy-unrolled', 'program %r: structure copy of the %s circuit differs under configuration %s: %s' % (prog, label, cfgname, first_diff(orig, cp)))
+                    break
     world.clear_memo()
 
 
